@@ -217,6 +217,8 @@ func extractCompaction(repo string) {
 	F.Facts["compaction.ShouldKeepTombstone.chain"] = tk.lean
 	F.Facts["compaction.ShouldKeepTombstone.prelude"] = strings.Join(tk.prelude, " ; ")
 
+	F.Facts["compaction.runCompactionCycle.shape"] = c.skeleton("DefaultCompactionCoordinator.runCompactionCycle", "LoadSSTables", "SelectCompaction",
+		"MarkFilePending", "CompactFiles", "UnmarkFilePending", "MarkFileObsolete", "CleanupObsoleteFiles")
 	F.Facts["compaction.runCompactionCycle.order"] = c.callOrder("DefaultCompactionCoordinator.runCompactionCycle",
 		"LoadSSTables", "SelectCompaction", "MarkFilePending", "CompactFiles", "UnmarkFilePending", "MarkFileObsolete", "CleanupObsoleteFiles")
 	F.Facts["compaction.CompactRange.order"] = c.callOrder("TieredCompactionStrategy.CompactRange", "Overlaps", "CompactFiles", "DeleteCompactedFiles", "LoadSSTables")
